@@ -677,6 +677,88 @@ def handleEc (E : C03.Env) (op : String) (args : List String) (got : String) : O
     some { model := got, spec := ["h=" ++ C03.fmtPoint h ++ " c=" ++ C03.fmtPoint (add c (mulNat c G x) (mulNat c h r))], tags := ["ped"] }
   | _, _ => none
 
+/-! ### pairing-based protocols: the protocol invariants are evaluated on the implementation's own outputs (no pairing
+specification on this side; "the value defined by the protocol" is as strong as the pairing property C04) -/
+
+def handlePc (op : String) (args : List String) (got : String) : Option Verdict :=
+  match op, args with
+  | "ibe", _ :: _ :: cap :: dcap :: msg :: rest => do
+    let cap ← cap.toNat?
+    let dcap ← dcap.toNat?
+    let msg ← parseBytes msg
+    let hdr := 65           -- uncompressed G1 point: 1 + 2·32 octets
+    if msg.length = 0 ∨ msg.length > 32 ∨ cap < msg.length + hdr then
+      some { model := got, spec := ["err"], tags := ["ibe.enc.reject", if msg.length = 0 then "ibe.len=0" else if msg.length > 32 then "ibe.len>max" else "ibe.cap<need"] }
+    else
+      match splitCM got with
+      | none => some { model := got, spec := ["c=<R | m xor H(e(..)^r)> m=" ++ fmtBytes msg], tags := ["ibe"] }
+      | some (chex, mstr) =>
+        let c := (parseBytes chex).getD []
+        let flip := fun (i : Nat) (v : Nat) => msg.set i (msg.getD i 0 ^^^ UInt8.ofNat v)
+        let out := fun (m : Bytes) => if m.length ≤ dcap then fmtBytes m else "err"
+        let (spec, tag) : List String × String := match rest with
+          | [] => ([out msg], "ibe.honest")
+          | ["t", l] =>
+            let l := min (l.toNat?.getD 0) (msg.length + hdr)
+            -- a ciphertext not longer than the point encoding carries no message: refused; otherwise the keystream is a prefix
+            (if l ≤ hdr then ["err"] else [out (msg.take (l - hdr))], "ibe.truncated")
+          | ["w", _] => (if mstr == fmtBytes msg then ["<anything but the message>"] else [mstr], "ibe.wrong-identity")
+          | [pos, x] =>
+            let pos := pos.toNat?.getD 0
+            let x := (parseHexNat x).getD 0
+            if pos ≥ msg.length + hdr then ([out msg], "ibe.honest")
+            else if pos ≥ hdr then ([out (flip (pos - hdr) x)], "ibe.body-mutated")   -- the scheme is malleable by design (no integrity)
+            else (if mstr == fmtBytes msg then ["err"] else [mstr], "ibe.point-mutated")
+          | _ => ([out msg], "ibe")
+        let okLen := c.length = (match rest with
+          | ["t", l] => min (l.toNat?.getD 0) (msg.length + hdr)
+          | _ => msg.length + hdr)
+        some { model := got, spec := if okLen then spec.map (fun o => "c=" ++ chex ++ " m=" ++ o) else ["c=<" ++ toString (msg.length + hdr) ++ " octets>"],
+               tags := [tag, if msg.length = 32 then "ibe.len=max" else "ibe.len<max"] }
+  | "bgn", [_, m1, m2, m3, m4] => do
+    let m1 ← parseHexNat m1
+    let m2 ← parseHexNat m2
+    let m3 ← parseHexNat m3
+    let m4 ← parseHexNat m4
+    some { model := got, spec := ["d1=" ++ natToHex m1 ++ " d2=" ++ natToHex m2 ++ " mul=" ++ natToHex (m1 * m2) ++ " add=" ++ natToHex (m1 * m2 + m3 * m4)],
+           tags := ["bgn"] ++ (if m1 * m2 = 0 then ["bgn.zero"] else []) }
+  | "sok", [_, ida, idb, len] => do
+    let len ← len.toNat?
+    if ida == idb then some { model := got, spec := ["k1=err k2=err"], tags := ["sok.same-identity"] } else
+    let kv := kvOf got
+    let ok := match kv.lookup "k1", kv.lookup "k2" with
+      | some a, some b => a == b && a != "err" && (a.length == 2 * len || (len == 0 && a == "."))
+      | _, _ => false
+    let prefixCase := ida.startsWith idb || idb.startsWith ida
+    some { model := got, spec := if ok && (got.splitOn " ").length == 2 then [got] else ["k1 = k2 (" ++ toString len ++ " octets)"],
+           tags := ["sok", if prefixCase then "sok.prefix-ids" else if ida.length == idb.length then "sok.same-length-ids" else "sok.ids"] }
+  | "pbpsi", [_, _, xs, _, ys] | "shipsi", [_, _, _, xs, _, ys] => do
+    let xs ← parseList xs
+    let ys ← parseList ys
+    let exp := sortNat (psiExpected xs ys)
+    let kv := kvOf got
+    match (kv.lookup "z").bind parseList with
+    | some z =>
+      let ok := sortNat z = exp ∧ kv.lookup "len" = some (toString exp.length)
+      some { model := got, spec := if ok then [got] else ["len=" ++ toString exp.length ++ " z=" ++ (if exp.isEmpty then "-" else String.intercalate "," (exp.map natToHex))],
+             tags := [op, "psi.m=" ++ toString xs.length, if exp.isEmpty then "psi.empty" else if exp.length = xs.length then "psi.all" else "psi.some"] }
+    | none => some { model := got, spec := ["len=" ++ toString exp.length ++ " z=…"], tags := [op] }
+  | "pcdel", [v, _, tam] => do
+    let tam ← tam.toInt?
+    let n := match v with
+      | "pdpub" => 3
+      | "lvpub" => 2
+      | "pdprv" => 4
+      | _ => 3
+    let honest := tam < 0 ∨ tam ≥ n
+    let tail := " msgs=" ++ toString n
+    -- honest helper: accepted with the pairing value; one altered message: rejected (return value 0), whatever the output slot holds
+    some { model := got, spec := if honest then ["ver=1 eq=1 unity=0" ++ tail] else ["ver=0 eq=0 unity=1" ++ tail, "ver=0 eq=0 unity=0" ++ tail],
+           tags := ["pcdel." ++ v, if honest then "pcdel.honest" else "pcdel.dishonest"] }
+  | "mpcpc", [v, _, _, _] =>
+    some { model := got, spec := ["pub=1 eq=1"], tags := ["mpcpc." ++ v] }
+  | _, _ => none
+
 def handle (w : Nat) (st : State) (ep : Option C03.Env) (op : String) (args : List String) (got : String) : Option Verdict :=
   (st.rsa.bind fun R => handleRsa w R op args got) <|>
   (st.rabin.bind fun R => handleRabin R op args got) <|>
@@ -684,7 +766,7 @@ def handle (w : Nat) (st : State) (ep : Option C03.Env) (op : String) (args : Li
   (st.phpe.bind fun P => handlePhpe P op args got) <|>
   (st.ghpe.bind fun G => handleGhpe G op args got) <|>
   (st.shpe.bind fun S => handleShpe S op args got) <|>
-  (handleMpc op args got) <|>
+  (handleMpc op args got) <|> (handlePc op args got) <|>
   (ep.bind fun E => handleEc E op args got)
 
 end Driver.C06
